@@ -65,12 +65,15 @@ Theorem C08_ahtree_last_inclusion_sound :
 Proof. exact last_inclusion_sound. Qed.
 Print Assumptions C08_ahtree_last_inclusion_sound.
 
-(* ahtree.VerifyConsistency: an accepted old root is the hash of a tree whose leaves are a PREFIX
-   of the leaves of the (genuine) new tree — history can only have been extended, never rewritten.
-   FULL statement ("... and that prefix has exactly i leaves in the reference shape") is REFUTED on
-   the code as it stands (known finding: VerifyConsistency([R2],1,2,R2,R2) accepts); this is the
-   _partial form. The Go panic on an empty proof is excluded by the verifier's own guards
-   (the model returns Panic for cproof[0] on [] and the theorem's premise is `= Ok true`). *)
+(* About the PRE-FIX verifier `verify_consistency` (ahtree.VerifyConsistency before /repo 05f2785; the
+   current one is `verify_consistency_fixed`, see C08_consistency_fixed_sound_exact below, and accepts
+   only what this one accepts: C08_consistency_fixed_implies_present): an accepted old root is the hash
+   of a tree whose leaves are a PREFIX of the leaves of the (genuine) new tree — history can only
+   have been extended, never rewritten.  The full statement ("... and that prefix has exactly i
+   leaves") was REFUTED for this pre-fix function (VerifyConsistency([R2],1,2,R2,R2) accepted,
+   Merkle/Refuted.v); it holds for the current verifier.  The Go panic on an empty proof is excluded
+   by the verifier's own guards (the model returns Panic for cproof[0] on [] and the premise is
+   `= Ok true`). *)
 Theorem C08_ahtree_consistency_sound_partial :
   forall (H : bytes -> bytes), (forall x, length (H x) = 32%nat) ->
   forall (t : tree) (cproof : list bytes) (i j : N) (iroot : bytes),
@@ -234,7 +237,8 @@ Theorem C08_aht_consistency_proof_is_ref :
 Proof. exact aht_consistency_proof_is_ref. Qed.
 Print Assumptions C08_aht_consistency_proof_is_ref.
 
-(* Completeness of ahtree.VerifyConsistency: for every payload list L and all 1 <= i <= j <= |L|
+(* Completeness, stated for the PRE-FIX function `verify_consistency` (the statement for the current
+   verifier is C08_consistency_fixed_complete): for every payload list L and all 1 <= i <= j <= |L|
    the generated proof is accepted for the genuine pairs (i, mth (first i)), (j, mth (first j)). *)
 Theorem C08_consistency_complete :
   forall (H : bytes -> bytes) (L : list bytes) (i j : N),
@@ -244,8 +248,9 @@ Theorem C08_consistency_complete :
 Proof. exact consistency_complete. Qed.
 Print Assumptions C08_consistency_complete.
 
-(* ... on the tree: ConsistencyProof(i, j) verifies against RootAt(i) and RootAt(j), for every
-   history. *)
+(* ... on the tree: ConsistencyProof(i, j) verifies (pre-fix function; for the current verifier
+   combine C08_aht_consistency_proof_is_ref with C08_consistency_fixed_complete) against RootAt(i)
+   and RootAt(j), for every history. *)
 Theorem C08_aht_consistency_proof_verifies :
   forall (H : bytes -> bytes) (ops : list aop) (i j : N),
     let t := aht_run H ops in
@@ -255,12 +260,10 @@ Theorem C08_aht_consistency_proof_verifies :
 Proof. exact aht_consistency_proof_verifies. Qed.
 Print Assumptions C08_aht_consistency_proof_verifies.
 
-(* A position-exact soundness statement for ahtree.VerifyConsistency that IS true of the code: if
-   the proof has the length of the proof the tree generates for (i, j) — a pure function of i and
-   j — then an accepted old root is the root of EXACTLY the first i payloads and 1 <= i <= j (or a
-   collision is exhibited), for every payload list and every adversarial proof of that length.
-   Without the length premise exactness is refuted (consistency_exact_refuted in
-   Merkle/Refuted.v: every known inexact acceptance uses a proof of another length). *)
+(* The lemma behind the repair, about the PRE-FIX function: if the proof has the length of the proof
+   the tree generates for (i, j) — a pure function of i and j — then an accepted old root is the
+   root of EXACTLY the first i payloads and 1 <= i <= j (or a collision is exhibited).  The current
+   verifier checks that length itself: C08_consistency_fixed_sound_exact. *)
 Theorem C08_consistency_sound_exact_honest_length :
   forall (H : bytes -> bytes), (forall x, length (H x) = 32%nat) ->
   forall (L cproof : list bytes) (i j : N) (iroot : bytes),
@@ -327,10 +330,10 @@ Theorem C08_aht_last_inclusion_proof_verifies :
 Proof. exact aht_last_inclusion_proof_verifies. Qed.
 Print Assumptions C08_aht_last_inclusion_proof_verifies.
 
-(* ---- the PROPOSED repair of ahtree.VerifyConsistency (fixes/C08-consistency-length.diff: after the
-   `i == j && len(cproof) == 0` case require len(cproof) == consistencyProofLen(i, j)); model
-   Merkle/VerifyFixed.v.  Until the diff is in /repo the tie runs the verifier as it stands (Tie/C08.v
-   `vcons`); these theorems say what the repair achieves. ---- *)
+(* ---- THE CURRENT ahtree.VerifyConsistency (/repo 05f2785: after the `i == j && len(cproof) == 0`
+   case the proof must have consistencyProofLen(i, j) terms); model `verify_consistency_fixed`
+   (Merkle/VerifyFixed.v), tied by the CVerCons cases.  These are the headline consistency theorems
+   about the code. ---- *)
 
 (* consistencyProofLen(i, j) is the number of terms AHtree.ConsistencyProof(i, j) returns. *)
 Theorem C08_consistency_proof_len_is_generator_length :
@@ -339,8 +342,10 @@ Theorem C08_consistency_proof_len_is_generator_length :
 Proof. exact consistency_proof_len_spec. Qed.
 Print Assumptions C08_consistency_proof_len_is_generator_length.
 
-(* The repaired verifier is POSITION-EXACT with no premise on the proof: an accepted old root is the
-   root of exactly the first i payloads and 1 <= i <= j, or a collision is exhibited. *)
+(* ahtree.VerifyConsistency is POSITION-EXACT, with no premise on the proof: for every payload list
+   L, every proof an adversary can assemble, every claimed i and old root: acceptance against the
+   genuine (|L|, mth L) implies that the old root is the root of exactly the first i payloads and
+   1 <= i <= j, or a collision is exhibited. *)
 Theorem C08_consistency_fixed_sound_exact :
   forall (H : bytes -> bytes), (forall x, length (H x) = 32%nat) ->
   forall (L cproof : list bytes) (i j : N) (iroot : bytes),
@@ -359,7 +364,7 @@ Theorem C08_consistency_fixed_complete :
 Proof. exact consistency_fixed_complete. Qed.
 Print Assumptions C08_consistency_fixed_complete.
 
-(* ... accepts nothing the present verifier rejects, and never panics. *)
+(* ... accepts nothing the pre-fix verifier rejected, and never panics. *)
 Theorem C08_consistency_fixed_implies_present :
   forall (H : bytes -> bytes) (cproof : list bytes) (i j : N) (iroot jroot : bytes),
     verify_consistency_fixed H cproof i j iroot jroot = Ok true ->
